@@ -5,6 +5,7 @@
 import Lean.Data.Json
 import CM.Model.Denote
 import CM.Model.StackRaw
+import CM.Model.Pipe
 open Lean
 namespace CM
 
@@ -175,5 +176,17 @@ def rawLayerOfJson (j : Json) : P RawLayer := do
       | .ok (.arr xs) => do pure (some (← xs.toList.mapM fun x => x.getStr?))
       | _ => pure none
     pure { k, cls, cacheNames := names }
+
+partial def pipeOfJson (j : Json) : P Pipe := do
+  let k ← (← jField j "k").getStr?
+  if k == "chain" then
+    let fl : Flavour := match j.getObjVal? "flavour" with
+      | .ok (.str "lazy") => .lazy
+      | .ok (.str "rshift") => .rshift
+      | _ => .chain
+    let ps ← (← jArr (← jField j "layers")).mapM pipeOfJson
+    pure (.group fl ps)
+  else
+    pure (.layer (← rawLayerOfJson j))
 
 end CM
